@@ -85,7 +85,7 @@ CFG = {
         "a divergence from S is attributed to a recorded finding only when the faithful model I reproduces the observation "
         "through the diverging op and that op lies in that finding's region (tags computed inside Coq)",
     ],
-    "predicates": {"C07.tag15_length_valueof_readonly_same_value": _tag(15, r"OSetLenRe")},
+    "predicates": {},     # no open finding: every divergence from S is a violation
     "manifest": {
         "text": ("proof: the Array exotic object (ArraySetLength, index [[DefineOwnProperty]], [[Set]], delete, get/has with holes) is "
                  "modelled as spec S over a finite map; goja's dense (values[]+counters) and sparse (sorted items[]) storages, both "
